@@ -201,6 +201,7 @@ type Engine struct {
 	Exhaustive  bool
 	Timeout     func(tier string) time.Duration // per child
 	MaxProcs    int                             // parallel children (0 = NumCPU)
+	ChildEnv    []string
 	Finalize    func(agg *Result, tier string) []string // extra broken-conditions (returns reasons)
 }
 
@@ -381,6 +382,7 @@ func drive(id string, args []string) int {
 			cmd.Stdout = lf
 			cmd.Stderr = lf
 			cmd.Env = append(os.Environ(), "VH_SCRATCH="+scratch, "VH_SELF="+self)
+			cmd.Env = append(cmd.Env, e.ChildEnv...)
 			if e.Race {
 				cmd.Env = append(cmd.Env, "GORACE=halt_on_error=0 log_path="+filepath.Join(scratch, fmt.Sprintf("race-b%d", bi)))
 			}
@@ -618,6 +620,9 @@ func crashSig(out string) string {
 }
 
 func writeEvidence(e *Engine, agg *Result, tier string, seed int64, wall float64, nviol int) {
+	if os.Getenv("VERIF_NO_EVIDENCE") == "1" { // mutation self-tests must not overwrite evidence of the real tree
+		return
+	}
 	cov := map[string]interface{}{
 		"evaluations":         agg.Evals,
 		"distinct_nontrivial": len(agg.Distinct),
